@@ -125,6 +125,28 @@ def counter_invariant(g, phi, IN, EDGE):
     return None
 
 
+def _index_from_writer(P, g, gep, S):
+    """the GEP indexes a polyseed_str local with a value that is (a phi/sum of) results of calls that were handed that same buffer"""
+    base, off = addr_base(g, gep.ops[0])
+    if base is None or base[0] != 'i' or g.insts[base[1]].op != 'alloca' or g.insts[base[1]].d['alloc_size'] != S: return False
+    seen = set(); work = [strip_ext(g, gep.d['var_steps'][0]['idx'])]
+    found = False
+    while work:
+        v = work.pop()
+        k = vk(v)
+        if k is None or k in seen: continue
+        seen.add(k)
+        i = inst_of(g, v)
+        if i is None: continue
+        if i.op == 'phi': work += [x for x, _ in i.d['incoming']]
+        elif i.op in ('add', 'sext', 'zext', 'trunc'): work += [x for x in i.ops if x['k'] == 'i']
+        elif i.op == 'call':
+            if any(addr_base(g, a)[0] == base for a in i.ops if a['k'] == 'i'): found = True
+            else: return False
+        else: return False
+    return found
+
+
 def counters(ctx, rep):
     for cfg in (ctx.configs('path') if ctx.tier == 'thorough' else ['NsS']):
         P = ctx.prog(cfg); pts = P.points_to()
@@ -193,11 +215,16 @@ def counters(ctx, rep):
             if bn == 'polyseed_lang_check': continue          # debug self-test over constant tables (assertion builds only)
             for i in g.all_insts():
                 if i.op != 'getelementptr' or not i.d['var_steps']: continue
-                users = [u for u in g.all_insts() if u.op in ('load', 'store') and u.ops[-1 if u.op == 'store' else 0] == {'k': 'i', 'id': i.id}]
+                users = [u for u in g.all_insts() if u.op == 'store' and u.ops[1] == {'k': 'i', 'id': i.id}]
+                users += [u for u in g.all_insts() if u.op == 'load' and u.ops[0] == {'k': 'i', 'id': i.id} and not (u.d['bits'] == 8 and bn not in anchors)]
+                # (byte reads through NUL-terminated cursors are the subject of CUR-1, not of this inventory)
                 for u in users:
                     ninv += 1
                     how = None
-                    if bn in IDX_EXCEPTIONS: how = 'exception: ' + IDX_EXCEPTIONS[bn]
+                    if u.op == 'store' and _index_from_writer(P, g, i, T.str_size()):
+                        how = 'SIZE-1 (terminator stored at the length the phrase writer returned, inside the polyseed_str local it filled)'
+                    if how: pass
+                    elif bn in IDX_EXCEPTIONS: how = 'exception: ' + IDX_EXCEPTIONS[bn]
                     elif (bn, u.loc) in covered: how = 'bitflow'
                     elif bn in anchors: how = 'IDX-1'
                     elif bn in cmp_fns and u.op == 'load' and u.d['bits'] == 8: how = 'CUR-1 (NUL-cursor discipline, index form)'
